@@ -9,6 +9,7 @@ for d in c[0-9][0-9]; do
   mkdir -p "../.build/$id"
   go test -c -vet=off -o "../.build/$id/test.bin" "./$d" &
 done
+go build -o ../.build/mergehash ./cmd/mergehash &
 wait
 if [ -d c17 ]; then go test -c -vet=off -race -o ../.build/C17/test.race.bin ./c17; fi
 echo setup done
